@@ -20,9 +20,16 @@ static void read_gsw(TGswSample* g, std::ifstream& in, const Inst& I) { for (int
 static const char* g_inst = "";
 static int replay(const char* path, unsigned seed, const char* only) {
     bool do_boot = !only[0] || strstr(only, "boot"), do_ext = !only[0] || strstr(only, "ext"), do_rot = !only[0] || strstr(only, "rot");
+    // In these instances the gadget resolves exactly the W-bit grid (l*Bgbit = W), so the decomposition FLOORS at the grid: an accumulator that is a
+    // unit of 2^-32 below a grid point (FFT rounding of the previous step) decomposes to the grid point below.  In the library proper that is the
+    // budgeted truncation noise; here it would be a whole message unit.  It is harmless while the following key elements encrypt 0 (the model keys
+    // are 1,0 for n <= 2).  For instances with more key elements the blind rotation is therefore run one key element at a time with the
+    // accumulator rounded back to the grid in between (FFT rounding is a few units, the grid step 2^(32-W)); whole multi-step runs are not emitted.
+    bool stepwise_only = false;
     std::ifstream in(path); Inst I;
     I.W = rd(in); I.NP = rd(in); I.KK = rd(in); I.LL = rd(in); I.BGB = rd(in); I.NN = rd(in); I.T = rd(in); I.BB = rd(in); I.sh = 32 - I.W; I.stride = 1024 / I.NP;
     int base = 1 << I.BB;
+    stepwise_only = I.NN > 2; if (stepwise_only) do_boot = false;
     I.skey.resize(I.KK); for (auto& s : I.skey) { s.resize(I.NP); for (auto& x : s) x = rd(in); }
     I.lkey.resize(I.NN); for (auto& x : I.lkey) x = rd(in);
     LweParams* lp = new_LweParams(I.NN, 0., 0.1); TLweParams* tp = new_TLweParams(1024, I.KK, 0., 0.1); TGswParams* gp = new_TGswParams(I.LL, I.BGB, tp);
@@ -90,9 +97,12 @@ static int replay(const char* path, unsigned seed, const char* only) {
         for (int j = 0; j < 1024; j++) tv->coefsT[j] = 0; for (int i = 0; i < I.NP; i++) tv->coefsT[i * I.stride] = (Torus32)((uint32_t)((3 * i + 1) % Q) << I.sh);
         TorusPolynomial* rot = new_TorusPolynomial(1024); if (aux) torusPolynomialMulByXai(rot, (int)aux * I.stride, tv); else torusPolynomialCopy(rot, tv);
         std::vector<int32_t> bara(I.NN); for (int q = 0; q < I.NN; q++) bara[q] = (int32_t)e[q] * I.stride;
-        for (int f = 0; f < 3; f++) {
+        for (int f = 0; f < 4; f++) {
+            if (stepwise_only != (f == 3)) continue;
             tLweNoiselessTrivial(acc, rot, tp);
-            if (f == 0) tfhe_blindRotate_FFT(acc, bkf->bkFFT, bara.data(), I.NN, gp); else if (f == 1) tfhe_blindRotate(acc, bk->bk, bara.data(), I.NN, gp);
+            if (f == 3) { for (int q = 0; q < I.NN; q++) { tfhe_blindRotate_FFT(acc, bkf->bkFFT + q, bara.data() + q, 1, gp);
+                    uint32_t half = 1u << (I.sh - 1); for (int c = 0; c <= I.KK; c++) for (int j = 0; j < 1024; j++) { uint32_t v = (uint32_t)acc->a[c].coefsT[j]; acc->a[c].coefsT[j] = (Torus32)(((v + half) >> I.sh) << I.sh); } } }
+            else if (f == 0) tfhe_blindRotate_FFT(acc, bkf->bkFFT, bara.data(), I.NN, gp); else if (f == 1) tfhe_blindRotate(acc, bk->bk, bara.data(), I.NN, gp);
             else { for (int q = 0; q < I.NN; q++) tfhe_blindRotate_FFT(acc, bkf->bkFFT + q, bara.data() + q, 1, gp); }      // one key element at a time
             tLwePhase(ph, acc, tk);
             std::vector<uint32_t> pv(I.NP); long off = 0; for (int j = 0; j < 1024; j++) { if (j % I.stride == 0) pv[j / I.stride] = (uint32_t)ph->coefsT[j]; else { long d = labs((long)ph->coefsT[j]); if (d > off) off = d; } }
